@@ -24,4 +24,16 @@ def run(tier, replay=None):
     if not replay or is_elab_replay:
         E.run(out, build, problems, PROP, tier, ["spec_C04"], E.default_gen, 600, 12000, RULE_E, replay=replay,
               known={"spec_C04": "kf_C04_accept_all"})
+    if not replay:
+        # a scenario outside the case language of the histories (a class whose namespace passes the meta-class twice):
+        # run as it stands, a search for a failing input only
+        import common as C
+        res = C.run_impl("impl_probe.py", {"probes": ["twice_through_the_metaclass"]})
+        out.coverage["scenario_probes"] = res
+        r = res.get("twice_through_the_metaclass", {})
+        if r.get("reproduced"):
+            out.violation("a weakened precondition is lost or strengthened once the class passes the meta-class a second time",
+                          {"probe": "twice_through_the_metaclass", "result": r, "script": "harness/impl_probe.py"})
+        elif r.get("reproduced") is None:
+            out.violation("the scenario probe did not run: %s" % r, {"probe": r}, found_input=False)
     return out.finish()
